@@ -322,13 +322,6 @@ impl LspContext {
         Ok(())
     }
 
-    fn join(self) -> MosResult<()> {
-        if let Some(io) = self.connection.unwrap().1 {
-            io.join()?;
-        }
-        Ok(())
-    }
-
     fn find_definitions<'a>(
         &'a self,
         analysis: &'a Analysis,
@@ -426,12 +419,19 @@ impl LspServer {
             .unwrap()
             .initialize(server_capabilities)?;
         self.main_loop(initialization_params)?;
-        Arc::try_unwrap(self.context)
-            .ok()
-            .unwrap()
-            .into_inner()
-            .unwrap()
-            .join()?;
+
+        // The client may have gone away without a shutdown request, so make sure everybody that is interested knows
+        self.lock_context().invoke_shutdown_handlers();
+
+        // The context is shared with the debug adapter server, so it cannot be taken apart here. Closing the connection
+        // is enough: without its sender the IO threads run to completion.
+        let connection = self.lock_context().connection.take();
+        if let Some((connection, io_threads)) = connection {
+            drop(connection);
+            if let Some(io_threads) = io_threads {
+                io_threads.join()?;
+            }
+        }
 
         log::info!("Shutting down MOS language server");
         Ok(())
